@@ -21,7 +21,7 @@ META = dict(
     level="model_checking",
     encoded=["SpecDataset.__init__/_wrapper/__getattr__", "SpecArray.dd/df and every observed statistic", "attributes.AttrDict / set_spec_attributes", "xarray accessor caching (one accessor instance per object)"],
     encoded_files=["wavespectra/specdataset.py", "wavespectra/specarray.py", "wavespectra/core/attributes.py", "wavespectra/core/select.py", "wavespectra/partition/specpart/specpart.c"],
-    bounds="all histories of length <= 2 (quick) / <= 3 (thorough) over the alphabet {accessor calls, replace efth by independent symbolic data, relabel dir with the same spacing, relabel dir with another spacing, unknown-statistic call, reader helper on another dataset, transform call}, on a DataArray and on a Dataset (grid 3x4 directions); after each history every observed operation must equal the same operation on a freshly built object with the same final contents; AttrDict by CrossHair on short string keys; the watershed's static buffers by consecutive calls with different shapes (engine L, the harness of C04)",
+    bounds="all histories of length <= 2 (quick) / <= 3 (thorough) over the alphabet {accessor calls, replace efth by independent symbolic data, relabel dir with the same spacing, relabel dir with another spacing, relabel freq with other bin widths (in the histories that pair it with one other step), unknown-statistic call, reader helper on another dataset, transform call}, on a DataArray and on a Dataset (grid 3x4 directions); after each history every observed operation must equal the same operation on a freshly built object with the same final contents; AttrDict by CrossHair on short string keys; the watershed's static buffers by consecutive calls with different shapes (engine L, the harness of C04)",
     outside="histories longer than the bound; peak statistics and site selection only after the short histories of `peak_history` / `sel_history` (call, edit, call); IEEE rounding; other processes",
     assumptions=["spectrum bins are finite reals >= 0"],
 )
@@ -31,7 +31,11 @@ D = np.array([0.0, 90.0, 180.0, 270.0])
 D_SHIFT = np.array([45.0, 135.0, 225.0, 315.0])     # same spacing
 D_HALF = np.array([0.0, 45.0, 90.0, 135.0])          # another spacing
 OBS = ["hs", "dm", "dspr", "tm01", "oned", "momd", "smooth", "attrs", "tableattrs"]
+F_OTHER = np.array([0.06, 0.1, 0.15])              # another frequency axis of the same length (other bin widths)
 STEPS = ["A", "E", "D", "H", "U", "R", "T"]
+# histories with an in-place relabelling of the FREQUENCY axis ("Q", added after seed C01-m5: bin widths memoised on
+# the accessor): Q alone, Q before/after every other step, QQ
+Q_HISTS = ["Q", "QQ"] + [a + "Q" for a in STEPS] + ["Q" + a for a in STEPS]
 
 
 def _fresh(obj):
@@ -74,6 +78,8 @@ def _step(env, obj, step, n, kind):
             obj.values[...] = new      # in-place edit of the array's contents
     elif step == "D":
         obj["dir"] = D_SHIFT if float(obj["dir"].values[0]) == 0.0 else D
+    elif step == "Q":
+        obj["freq"] = F_OTHER if float(obj["freq"].values[0]) == float(F[0]) else F
     elif step == "H":
         obj["dir"] = D_HALF if float(obj["dir"].values[1]) == 90.0 or float(obj["dir"].values[1]) == 135.0 else D
     elif step == "U":
@@ -119,8 +125,8 @@ def _histories(maxlen):
     return out
 
 
-@harness(P, quick=[dict(kind=k, hist=h) for k in ("da", "ds") for h in _histories(2)],
-         thorough=[dict(kind=k, hist=h) for k in ("da", "ds") for h in _histories(3) if len(h) == 3 and ("E" in h or "D" in h or "H" in h or "U" in h)], max_paths=500, obl_timeout=8000, witnesses=2)
+@harness(P, quick=[dict(kind=k, hist=h) for k in ("da", "ds") for h in _histories(2) + Q_HISTS],
+         thorough=[dict(kind=k, hist=h) for k in ("da", "ds") for h in [x for x in _histories(3) if len(x) == 3 and ("E" in x or "D" in x or "H" in x or "U" in x)] + ["AQE", "AQA", "QAQ", "AQD", "TQA", "AEQ", "QEA"]], max_paths=500, obl_timeout=8000, witnesses=2)
 def history(env, kind, hist):
     """after the history, every observed operation equals the one on a fresh object with the same contents."""
     _reset_table()
